@@ -61,6 +61,8 @@ type MSession struct {
 	AssetIDsEver map[uint32]bool
 
 	HasVikja, HasOdal bool // module state exists only once a member with the module joined
+
+	QuadSteps int // ground-plane sample messages sent by members of this session instance (valid or not)
 }
 
 func newMSession(id, uuid string, seq int) *MSession {
